@@ -8,6 +8,7 @@ CONTRACT_MODULES = ["contracts.c06_collections"]
 _FAM = ["Seq", "Map", "Set"]
 TARGETS = ([f + s for f in _FAM for s in ("Extractor", "Inserter", "AddItem", "TransformItem", "RemoveItem")] + ["MutatorInit"] +
            ["H%s%sItem" % (f, op) for f in _FAM for op in ("With", "Update", "Transform", "Without")])
+SUBCHECKS = [("props._c06_prepare", __import__("props._c06_prepare", fromlist=["TARGETS"]).TARGETS)]
 ASSUMPTIONS = [
     "scope: the attribute holds nothing or a built-in list / dict / set (typed containers such as KeyedList / KeyedSet go through their own "
     "contracts, C13 / C14, and through the bounded stand-in here); no slice addressing; transform_/without_ helpers are given a container to edit",
@@ -45,4 +46,9 @@ def extra_checks(ft, tier, seed):
 
 
 def find_counterexample(fn, violation, outdir):
-    return harness.run_json("bounded/c06.py", ["--find", fn or "-", outdir])
+    r = harness.run_json("bounded/c06.py", ["--find", fn or "-", outdir])
+    if not r.get("found"):
+        r2 = harness.run_json("bounded/spec_extra.py", ["--find", PROPERTY, fn or "-", outdir])
+        if r2.get("found"):
+            return r2
+    return r
